@@ -1,6 +1,9 @@
 """C08 — partial formulas equal their definitions; the two identities hold for all parameters."""
 from ..runner import Stream
-from .. import gen
+from .. import gen, p2loop
+
+# WP p2b: loop structure of P2/B inside the model (PcProps/C08P2.lean; streams in pcv/p2loop.py)
+EXTRA_MODULES = ["C08P2"]
 
 RULE = ("each term (P2,P3,S1,S2_trivial,S2_easy,S2_hard,Sigma,B,Phi0,AC,D) through the internal entry point with EXPLICIT "
         "(y,z,k|c) — exhaustive small x × every admissible parameter choice, boundary-heavy sample beyond — against the naive "
@@ -10,8 +13,9 @@ TRUSTED = ["model side = executable defining sums PcModel/Formulas.lean; each is
            "totals are proved = pi(x) for all x and admissible parameters (PcProofs/Formulas*.lean, executable_dr_total / "
            "executable_gourdon_total); the tie of the C++ terms to them is this sampled correspondence"]
 ASSUMPTIONS = ["explicit parameters are restricted to what the tuning options can produce"]
-# wp-s1phi0: PcProps/C08Leaf.lean (loop mirrors of S1 / Phi0 / Sigma / S2_trivial proved equal to their definitions)
-EXTRA_MODULES = ["C08Leaf"]
+# extra property files PcProps/C08Leaf.lean, C08P2.lean are auto-discovered by the runner
+RULE += "; " + p2loop.RULE_C08
+TRUSTED = TRUSTED + p2loop.TRUSTED_P2B
 
 
 def term_ops(x, y, z, k, yd, c, w, t):
@@ -96,7 +100,7 @@ def streams(ctx):
                  model_ops=lambda ops, impl: ["# " + o for o in ops], timeout=1500,
                  classify=lambda op, r: op.split()[0])
     from . import c08leaf
-    return [st1, st2, cli_stream(ctx)] + c08leaf.streams(ctx)
+    return [st1, st2, cli_stream(ctx)] + c08leaf.streams(ctx) + p2loop.c08_streams(ctx)
 
 
 def cli_stream(ctx):
